@@ -77,6 +77,10 @@ ResOK(e, got) ==
       [] e.k = "handles" -> /\ got.k = "handles" /\ Len(got.v) = Len(e.hs)
                             /\ \A j \in 1..Len(e.hs) : ToSet(got.v[j].fresh) = e.hs[j] /\ ToSet(got.v[j].cached) = e.hs[j]
                                                          /\ Len(got.v[j].cached) = Cardinality(e.hs[j])
+      [] e.k = "nav"   -> got.k = "nav" /\ got.parent = e.parent /\ got.owner = e.owner /\ got.lookups_ok
+                          /\ ToSet(got.comps) = e.comps /\ Len(got.comps) = Cardinality(e.comps)
+                          /\ ToSet(got.svcs) = e.svcs /\ Len(got.svcs) = Cardinality(e.svcs)
+                          /\ ToSet(got.ifs) = e.ifs /\ Len(got.ifs) = Cardinality(e.ifs)
       [] e.k = "ifs"   -> got.k = "ifs" /\ ToSet(got.fresh) = e.v /\ ToSet(got.cached) = e.v /\ Len(got.cached) = Cardinality(e.v)
 
 ImplInv(js, O) ==
